@@ -10,7 +10,11 @@ streams); C03_end_to_end composes it with C14 / C08 / the run theorems.
 Layered classes: Model/SimLoopLayered.v (the else-branch of the loop: per-qubit calls with identity padding, physical label = index) is
 compared exactly with the recorded method calls -- I(k) included -- of the real simulator on Circuit / Standard / Efficient / OneCircuit
 (checks/c03_simloop_layered.py); C03_end_to_end_layered composes calls -> builder (C11 lstep) -> stored layers -> backend (C01) -> Born
-rule with C14 / C08."""
+rule with C14 / C08.
+Grid class Circuit: Model/GridBackend.v (Circuit.statevector: kron-reduce per column, product of the columns) is compared exactly with the real
+class driven with Gaussian-integer token matrices (checks/c03_grid.py: grids filled directly and built through the real methods, vector or
+exception class, tensordot reference as oracle); C03_grid_builder / C03_grid_statevector_spec / C03_grid_depth_rule / C03_end_to_end_grid compose
+calls -> builder (C11 gstep, depth = len(data) - n_rz + 1) -> columns -> Circuit.statevector -> Born rule with C14 / C08."""
 import sys, json
 import numpy as np
 from vlib.common import Check
@@ -23,6 +27,7 @@ def main(argv):
     import checks.gates_trace as gt
     import checks.c03_simloop as sl
     import checks.c03_simloop_layered as ll
+    import checks.c03_grid as gr
     from quantum_gates._gates.gates import noise_free_gates
     from quantum_gates._utility.simulations_utility import fix_counts
     ck.rule = ("obligations = theorems of Props/C03.v (+ regeneration of both traces, correspondence, oracle); a case = (class, labels, random native circuit, "
@@ -33,7 +38,8 @@ def main(argv):
                   "layered classes (Standard / Efficient / OneCircuit) likewise: C03_layered_builder (= C03_layered_builder_full, proved), C03_layered_calls_builder, C03_layered_backend; "
                   "the simulator loop from Qiskit instructions to method calls (layout, delay, barrier, measure, read-out; identity padding for the layered classes) is "
                   "Model/SimLoop.v resp. Model/SimLoopLayered.v, tied by exact correspondence of the recorded method calls, and composed end to end "
-                  "(C03_end_to_end, C03_end_to_end_layered); the grid class Circuit shares the layered branch (same correspondence) but its own statevector() is covered by the oracle only; "
+                  "(C03_end_to_end, C03_end_to_end_layered); the grid class Circuit shares the layered branch (same correspondence); its own statevector() is Model/GridBackend.v, tied by exact "
+                  "correspondence on Gaussian-integer grids (checks/c03_grid.py) and composed end to end with C11's gstep and the simulator's depth rule (C03_end_to_end_grid); "
                   "the mean over the shots of a deterministic gate set is C09",
                   "floating-point rounding outside the model"]
     rng = np.random.default_rng(ck.seed)
@@ -54,7 +60,9 @@ def main(argv):
 
     if ck.replay:
         doc = json.load(open(ck.replay))["replay"]
-        if doc.get("family") == "simloop_layered":
+        if doc.get("family") == "grid_statevector":
+            gr.replay(doc)
+        elif doc.get("family") == "simloop_layered":
             instrs = [(a, list(b), c) for a, b, c in doc["instrs"]]
             rec = ll.run_recorded(doc["cls"], instrs, doc["nphys"])
             why, _ = ll.oracle(doc["cls"], instrs, doc["nphys"], np.random.default_rng(ck.seed)) if ll.in_domain(instrs) else ("outside the layered classes' domain", None)
@@ -242,6 +250,8 @@ def main(argv):
                          "speaks about this code (the noise-free oracle passes on every explored input)" % (doc.get("instrs") or doc.get("raw")), doc, False)
         else:
             ll_report = ("corr-build:simloop_layered", "correspondence file failed to compile: %s" % (ll_build,), {"correspondence": ll_build[0], "log": ll_build[1]}, False)
+    # ---- grid class: Model/GridBackend.v = Circuit.statevector, exactly (vector or exception class), alone and behind the builder ----
+    gr_report = gr.run(ck)
     # thorough: the bundled benchmark circuits transpiled offline against fake backends (cx and ecr bases, linear and scattered layouts)
     if ck.tier == "thorough":
         import io, contextlib
@@ -288,6 +298,8 @@ def main(argv):
         ck.report(*sl_report)
     elif ll_report:
         ck.report(*ll_report)
+    elif gr_report:
+        ck.report(*gr_report)
     return ck.finish()
 
 
